@@ -157,6 +157,68 @@ def run_shard(ctx):
                         ctx.evaluation(case, nontrivial=True, sample=case)
                         run_case(ctx, Model, case)
     parser_models(ctx)
+    integer_models(ctx)
+
+
+def integer_models(ctx):
+    """Models whose check variables are integers (dtype=int) of a magnitude at which float64 cannot tell neighbours apart: a step
+    of 1 at 2**60 is a move of 1 - not less than tol = 0.5 - and a step of 0 is no move.  The verdict is recomputed in exact integer
+    arithmetic from the scripted steps."""
+    import fsic
+    rng = ctx.rng('c02-int')
+
+    class IntModel(fsic.BaseModel):
+        ENDOGENOUS = ['K', 'J']
+        NAMES = ENDOGENOUS
+        CHECK = ENDOGENOUS
+
+        def _evaluate(self, t, *, iteration=None, **kw):
+            steps = self.__dict__['v_steps']
+            dk, dj = steps[iteration - 1] if iteration - 1 < len(steps) else (0, 0)
+            self._K[t] += dk
+            self._J[t] += dj
+            self.__dict__['v_passes'] = self.__dict__.get('v_passes', 0) + 1
+
+    for i in range(ctx.pick(150, 3000)):
+        base = rng.choice([2 ** 60, -2 ** 60, 2 ** 53 + 1, 10, 2 ** 62])
+        steps = [(rng.choice([0, 0, 1, -1, 2, 3]), rng.choice([0, 0, 0, 1])) for _ in range(rng.randrange(0, 5))]
+        tol = rng.choice([0.5, 1.0, 1.5, 2.5, 1e-10])
+        max_iter = rng.choice([1, 2, 4, 6])
+        min_iter = rng.choice([0, 0, 1, 2, 3])
+        if min_iter > max_iter:
+            min_iter = max_iter
+        failures = rng.choice(['raise', 'ignore'])
+        case = dict(kind='integer-model', base=base, steps=steps, tol=tol, max_iter=max_iter, min_iter=min_iter, failures=failures)
+        ctx.evaluation(case, nontrivial=True, sample=case)
+        m = IntModel(range(3), dtype=int)
+        m.K = base
+        m.J = -base
+        m.__dict__['v_steps'] = steps
+        res = {}
+        with warnings.catch_warnings():
+            warnings.simplefilter('ignore')
+            try:
+                res['ret'] = m.solve_t(1, tol=tol, max_iter=max_iter, min_iter=min_iter, failures=failures)
+            except Exception as e:
+                res['exc'] = type(e).__name__
+        ctx.count('integer_models_solved')
+        want_k = None
+        for k in range(1, max_iter + 1):
+            dk, dj = steps[k - 1] if k - 1 < len(steps) else (0, 0)
+            if k >= max(1, min_iter) and abs(dk) < tol and abs(dj) < tol:
+                want_k = k
+                break
+        passes, status, its = m.__dict__.get('v_passes', 0), str(m.status[1]), int(m.iterations[1])
+        total = sum(s_[0] for s_ in steps[:passes])
+        if int(m.K[1]) != base + total:
+            ctx.violation('stored-value', f'integer model: K[t] = {int(m.K[1])} after {passes} passes, the steps add up to {base + total}', case)
+        elif want_k is not None:
+            if not (res.get('ret') is True and status == '.' and its == want_k and passes == want_k):
+                ctx.violation('pass-count', f'integer check variables near {base}: steps {steps} first stay below tol {tol} at pass {want_k}; solver: {res}, status {status}, iterations {its}, passes {passes}', case)
+        else:
+            ok = status == 'F' and its == max_iter and passes == max_iter and (res.get('exc') == 'NonConvergenceError' if failures == 'raise' else res.get('ret') is False)
+            if not ok:
+                ctx.violation('pass-count', f'integer check variables near {base}: steps {steps} never stay below tol {tol} within {max_iter} passes; solver: {res}, status {status}, iterations {its}, passes {passes}', case)
 
 
 def parser_models(ctx):
